@@ -8,7 +8,8 @@ NAMES = (n ...)                     directory listing
 FILES = ((n (import ...) (item ...) mtime) ...)
 LAZY  = ((n m) ...)                 `if filename == n: import m`
 MODS  = ((m (ACT ...)) ...)         ACT = (imp m) | (load n)
-PARSE = ((item KIND (req ...)) ...) KIND = ok (ok iff all req visible, else err) | err | raise; unlisted: ok
+PARSE = ((item KIND ((alt ...) ...)) ...) KIND = ok (ok iff every group has a visible member, else err) | err | raise;
+        unlisted items: ok
 OPS   = (load n LIM FAULT) | (imp m) | (touch n t) | (edit n (item ...) t) | (reload)
 LIM   = none | start | (item i);  FAULT = none | i
 RES   = ok | cycle | key | order | parse | limit | fuel;  THY = none | (item ...)
@@ -40,10 +41,10 @@ def modOf : Sexp → Option (Mod × List Act)
 
 inductive Kind where | ok | err | raise
 
-def ruleOf : Sexp → Option (Item × Kind × List Item)
+def ruleOf : Sexp → Option (Item × Kind × List (List Item))
   | .list [i, .atom k, rs] => do
     let kd ← (match k with | "ok" => some Kind.ok | "err" => some Kind.err | "raise" => some Kind.raise | _ => none)
-    some ((← i.toNat?), kd, (← natsOf rs))
+    some ((← i.toNat?), kd, (← (← rs.toList?).mapM natsOf))
   | _ => none
 
 def limOf : Sexp → Option Limit
@@ -66,13 +67,13 @@ def opOf : Sexp → Option Op
 
 def lookupD {α} (d : α) (l : List (Nat × α)) (k : Nat) : α := (l.lookup k).getD d
 
-def mkWorld (lazy : List (Nat × Nat)) (mods : List (Mod × List Act)) (rules : List (Item × Kind × List Item)) : World :=
+def mkWorld (lazy : List (Nat × Nat)) (mods : List (Mod × List Act)) (rules : List (Item × Kind × List (List Item))) : World :=
   { parse := fun i ctx =>
       match rules.lookup i with
       | none => .ok
       | some (.raise, _) => .raise
       | some (.err, _) => .err
-      | some (.ok, reqs) => if reqs.all (fun r => ctx.contains r) then .ok else .err
+      | some (.ok, reqs) => if reqs.all (fun g => g.any (fun r => ctx.contains r)) then .ok else .err
     lazyOf := fun n => lazy.lookup n
     body := fun m => lookupD [] mods m }
 
